@@ -34,7 +34,25 @@ CFG = Cfg(max_depth=3, theories={"bool", "int", "real", "bv", "arr", "uf", "quan
           quant_types=[BOOL, BV(1), INT], share=35, nsyms=2)
 
 FAIL_KINDS = ["construct", "substitute", "cnf-quantified", "qelim-nonbool", "size-measure", "get-symbol", "hr-parse",
-              "smtlib-parse", "array-nonconst-key", "fi-free-vars", "simplify-custom-walker"]
+              "smtlib-parse", "array-nonconst-key", "fi-free-vars", "custom-operator", "simplify-custom-walker"]
+
+
+def _register_custom_operator():
+    """A user-defined node type known to the type checker and the free-variable oracle only: every other walker
+    meets an unsupported operator in the middle of its traversal.  (Registered before any Environment exists: the
+    walkers read the table of node types when they are created.)"""
+    import pysmt.operators as op
+    import pysmt.typing as pt
+    from pysmt.type_checker import SimpleTypeChecker
+    from pysmt.oracles import FreeVarsOracle
+    nt = op.new_node_type(node_str="VF_UNSUPPORTED")
+    SimpleTypeChecker.set_handler(lambda self, formula, args, **kwargs: pt.BOOL if args[0] == pt.BOOL else None, nt)
+    FreeVarsOracle.set_handler(FreeVarsOracle.walk_simple_args, nt)
+    return nt
+
+
+MYOP = _register_custom_operator()
+CUSTOM_SERVICES = ["simplify", "substitute", "nnf", "aig", "serialize", "to_smtlib", "dag-printer", "size", "theory", "atoms"]
 
 
 class World(object):
@@ -44,7 +62,16 @@ class World(object):
         self.env = Environment()
         with self.env:
             self.parser = SmtLibParser(self.env)
+        from pysmt.smtlib.printers import SmtDagPrinter
+        self.dagprinter = SmtDagPrinter(StringIO())          # a long-lived printer object
         self.last_exc = None
+
+    def dag_print(self, f):
+        buf = StringIO()
+        self.dagprinter.stream = buf
+        self.dagprinter.write = buf.write
+        self.dagprinter.printer(f)
+        return buf.getvalue()
 
 
 def wrong_typed(ty):
@@ -86,6 +113,35 @@ def do_fail(world, fail):
             elif kind == "array-nonconst-key":
                 _, it, d, k, v = fail
                 mgr.Array(pys.to_ptype(env, it), pys.build(env, d), {pys.build(env, k): pys.build(env, v)})
+            elif kind == "custom-operator":
+                _, svc, fbp = fail
+                f = pys.build(env, fbp)
+                q = mgr.Symbol("p0")
+                u = mgr.create_node(node_type=MYOP, args=(mgr.Or(q, f),))
+                g_ = mgr.And(mgr.Iff(f, q), mgr.Or(u, mgr.Not(f)))      # the operator sits below the root, after other work
+                if svc == "simplify":
+                    env.simplifier.simplify(g_)
+                elif svc == "substitute":
+                    env.substituter.substitute(g_, {q: mgr.Not(q)})
+                elif svc == "nnf":
+                    import pysmt.rewritings as rw
+                    rw.nnf(g_, env)
+                elif svc == "aig":
+                    import pysmt.rewritings as rw
+                    rw.aig(g_, env)
+                elif svc == "serialize":
+                    env.serializer.serialize(g_)
+                elif svc == "to_smtlib":
+                    from pysmt.smtlib.printers import to_smtlib
+                    to_smtlib(g_)
+                elif svc == "dag-printer":
+                    world.dag_print(g_)
+                elif svc == "size":
+                    env.sizeo.get_size(g_)
+                elif svc == "theory":
+                    env.theoryo.get_theory(g_)
+                else:
+                    env.ao.get_atoms(g_)
             elif kind == "fi-free-vars":
                 from pysmt.substituter import FunctionInterpretation
                 _, params, body = fail
@@ -172,6 +228,9 @@ def gen_fail(g, probe, rel):
             "(set-logic QF_LRA) (assert %s) (assert (< 1 true))" % good,
         ])
         return ("smtlib-parse", decl + "\n" + bad + "\n")
+    if kind == "custom-operator":
+        bf = f if t == BOOL else (probe if reftype_or_none(probe) == BOOL else const(BOOL, True))
+        return ("custom-operator", g.choice(CUSTOM_SERVICES), bf)
     if kind == "array-nonconst-key":
         return ("array-nonconst-key", INT, const(INT, 0), sym("i0", INT), const(INT, 1))
     return ("fi-free-vars", (sym("i0", INT),), app("PLUS", sym("i0", INT), sym("i1", INT)))
@@ -254,6 +313,26 @@ def check_history(run, probe, history, probes, ptexts):
                      "the call %s made again after it failed: %s; made for the first time on the twin: %s" % (
                          show(item[1], 200) if False else repr(item[1])[:300],
                          "raised " + str(A.last_exc) if ra else "returned", "raised " + str(Bw.last_exc) if rb else "returned"))
+    # the long-lived DAG printer object: what it prints must read back as the formula, on both sides alike
+    try:
+        if reftype(probe) == BOOL:
+            outs = []
+            for W in (A, Bw):
+                with W.env:
+                    try:
+                        pf = pys.build(W.env, probe)
+                        back = SmtLibParser(W.env).get_script(StringIO(
+                            "\n".join(declarations([probe], Writer(__import__("random").Random(0), variation=False))) +
+                            "\n(assert %s)\n" % W.dag_print(pf))).get_last_formula()
+                        outs.append("same-object" if back is pf else "other-object")
+                    except Exception as e:
+                        outs.append("raised " + type(e).__name__)
+            run.cls("probe:long-lived-dag-printer")
+            if outs[0] != outs[1]:
+                run.fail({"subcheck": "trace:result-differs", "service": "long-lived-dag-printer", "after": sorted(set(kinds))[0]}, case,
+                         "text of the re-used SmtDagPrinter read back: %s after failing calls %s, %s on the twin" % (outs[0], sorted(set(kinds)), outs[1]))
+    except IllTyped:
+        pass
     run.extra["matrix_cells"] = len(getattr(run, "nontrivial_cells", ()))
 
 
@@ -321,7 +400,7 @@ def main():
     jobs = [(shard, dict(shard=s, seed=chk.seed, n=8000 if thorough else 400)) for s in range(16)]
     chk.add(run_shards(jobs))
     for k in FAIL_KINDS[:-1]:
-        chk.floor("injected:" + k, 100)
+        chk.floor("injected:" + k, 80)
     for svc in ("simplify", "substitute", "size", "theory", "cnf", "parse_print", "long-lived-parser"):
         chk.floor("probe:" + svc, 500)
     chk.notes["fault_kinds"] = FAIL_KINDS[:-1]
